@@ -810,12 +810,63 @@ pub fn addr_strategy() -> BoxedStrategy<AddrSpec> {
     .boxed()
 }
 
+/// a subnet built from a few base addresses (host bits may be set) and any prefix length, so that lists
+/// hold entries that share a masked base, nest at non-nibble boundaries and come in any order
+pub fn gen_subnet() -> BoxedStrategy<String> {
+    let v4 = vec!["192.168.0.0", "192.168.255.255", "10.1.2.3", "172.16.0.0", "128.0.0.0", "255.255.255.255", "0.0.0.0"];
+    let v6 = vec!["2001:db8::", "2001:db8:1:2::5", "fe80::", "::", "ffff:ffff:ffff:ffff:ffff:ffff:ffff:ffff", "8000::"];
+    let mapped = vec!["::ffff:10.1.2.3", "::ffff:192.168.0.0"];
+    prop_oneof![
+        4 => (prop::sample::select(v4), 0u8..=32).prop_map(|(a, l)| format!("{a}/{l}")),
+        3 => (prop::sample::select(v6), 0u8..=128).prop_map(|(a, l)| format!("{a}/{l}")),
+        1 => (prop::sample::select(mapped), 96u8..=128).prop_map(|(a, l)| format!("{a}/{l}")),
+    ]
+    .boxed()
+}
+
+/// an address at the edge of one of the configured subnets: the subnet's network bits with one bit around the
+/// prefix boundary flipped (`delta`: 0 = none, 1..=4 = bit m-2..m+1) and `low` as the bits behind it
+pub fn near_subnet(cfg: &CfgSpec, idx: u8, delta: u8, low: u64) -> Option<AddrSpec> {
+    let all: Vec<IpSubnet> = parse_subnets(&cfg.deny).into_iter().chain(parse_subnets(&cfg.allow)).collect();
+    if all.is_empty() {
+        return None;
+    }
+    let s = &all[idx as usize % all.len()];
+    let (v4, base, width) = match s.addr {
+        IpAddr::V4(a) => (true, (u32::from(a) as u128) << 96, 32u32),
+        IpAddr::V6(a) => (false, u128::from(a), 128u32),
+    };
+    let m = (s.mask as u32).min(width);
+    let net_mask: u128 = if m == 0 { 0 } else { !0u128 << (128 - m) };
+    let mut val = base & net_mask;
+    let mut host_from = m;
+    if delta > 0 {
+        let p = (m + delta as u32).checked_sub(3);
+        if let Some(p) = p.filter(|p| *p < width) {
+            val ^= 1u128 << (127 - p);
+            host_from = host_from.max(p + 1);
+        }
+    }
+    if host_from < width {
+        let spread = ((low as u128) << 64) | (low as u128).rotate_left(17);
+        let host_mask = (!0u128 >> host_from) & (!0u128 << (128 - width));
+        val |= spread & host_mask;
+    }
+    Some(if v4 { AddrSpec::V4((val >> 96) as u32) } else { AddrSpec::V6((val >> 64) as u64, val as u64) })
+}
+
 pub fn cfg_strategy() -> BoxedStrategy<CfgSpec> {
     let pool = subnet_pool();
     let list = move |max: usize| {
         let pool = pool.clone();
-        prop::collection::vec(0..pool.len(), 0..=max)
-            .prop_map(move |ix| ix.into_iter().map(|i| pool[i].to_string()).collect::<Vec<_>>())
+        let n = pool.len();
+        prop::collection::vec(
+            prop_oneof![
+                1 => (0..n).prop_map(move |i| pool[i].to_string()),
+                1 => gen_subnet(),
+            ],
+            0..=max,
+        )
     };
     (
         prop_oneof![3 => Just(Vec::<String>::new()).boxed(), 2 => list(4).boxed()],
@@ -1075,9 +1126,87 @@ pub fn conformant_strategy() -> BoxedStrategy<PacketSpec> {
         .boxed()
 }
 
+/// plain client requests whose extension fields are shorter than what the server emits when it echoes them
+/// (the classes behind the C17 known findings), optionally followed by a legacy MAC of any accepted length:
+/// the datagrams for which "the answer fits the request" is decided by a few bytes
+pub fn tight_strategy() -> BoxedStrategy<PacketSpec> {
+    (
+        packet_strategy(),
+        prop_oneof![5 => Just(4u8), 2 => Just(5u8)],
+        prop::collection::vec(
+            prop_oneof![
+                4 => (0usize..7).prop_flat_map(|k| bytes(k * 4..k * 4 + 1)).prop_map(EfSpec::Uid),
+                1 => bytes(0..28).prop_map(EfSpec::Uid),
+                1 => (any::<u16>(), bytes(0..24)).prop_map(|(ty, body)| EfSpec::Unknown { ty, body }),
+            ],
+            1..4,
+        ),
+        prop_oneof![2 => Just(None), 3 => bytes(4..25).prop_map(Some)],
+    )
+        .prop_map(|(mut p, vn, pre, mac)| {
+            p.vn = vn;
+            p.mode = 3;
+            p.upgrade = false;
+            p.draft_ok = true;
+            p.draft_wrong = false;
+            p.conformant_sizes = false;
+            p.pre = pre;
+            p.nts = None;
+            p.post = vec![];
+            p.mac = mac;
+            p
+        })
+        .boxed()
+}
+
+/// authenticated NTS requests with a valid cookie and 0..=24 undersized unique-identifier fields in front of the
+/// authenticator: the echo re-pads every field, so the room left for the answer's authenticator shrinks to
+/// anything between plenty and nothing
+pub fn tight_nts_strategy() -> BoxedStrategy<PacketSpec> {
+    (
+        packet_strategy(),
+        prop_oneof![5 => Just(4u8), 2 => Just(5u8)],
+        0usize..=24,
+        prop_oneof![3 => Just(4usize), 1 => Just(0usize), 1 => Just(8usize), 1 => 0usize..13],
+        0u8..2,
+        any::<bool>(),
+        any::<bool>(),
+        prop::collection::vec(
+            prop_oneof![
+                1 => bytes(0..9).prop_map(EfSpec::Uid),
+                1 => Just(EfSpec::Placeholder { len: 104 }),
+            ],
+            0..2,
+        ),
+    )
+        .prop_map(|(mut p, vn, n, uid_len, age, cookie_first, alg512, inner)| {
+            p.vn = vn;
+            p.mode = 3;
+            p.upgrade = false;
+            p.draft_ok = true;
+            p.draft_wrong = false;
+            p.conformant_sizes = false;
+            let mut pre: Vec<EfSpec> = (0..n).map(|i| EfSpec::Uid(vec![i as u8; uid_len])).collect();
+            let cookie = EfSpec::Cookie(CookieSpec::Issued { age });
+            if cookie_first {
+                pre.insert(0, cookie);
+            } else {
+                pre.push(cookie);
+            }
+            p.pre = pre;
+            p.nts = Some(NtsSpec { key: KeySel::C2S, alg512, nonce: vec![0x4e; 16], inner, extra_pad: 0, corrupt: None });
+            p.post = vec![];
+            p.mac = None;
+            p
+        })
+        .boxed()
+}
+
 pub fn req_strategy() -> BoxedStrategy<ReqSpec> {
     prop_oneof![
         6 => conformant_strategy().prop_map(ReqSpec::Built),
+        1 => tight_strategy().prop_map(ReqSpec::Built),
+        1 => tight_nts_strategy().prop_map(ReqSpec::Built),
         8 => packet_strategy().prop_map(ReqSpec::Built),
         1 => bytes(0..200).prop_map(ReqSpec::Raw),
         1 => bytes(48..1025).prop_map(ReqSpec::Raw),
@@ -1100,11 +1229,30 @@ pub fn case_strategy(max_reqs: usize) -> BoxedStrategy<ServerCase> {
         any::<u64>(),
         prop_oneof![3 => Just(0u32), 1 => Just(u32::MAX), 1 => (u32::MAX - 3)..=u32::MAX, 1 => any::<u32>()],
         prop::collection::vec(
-            (addr_strategy(), any::<u64>(), any::<u64>(), prop_oneof![9 => Just(false), 1 => Just(true)], req_strategy())
-                .prop_map(|(addr, recv_ts, now_ts, rotate_before, req)| ReqItem { addr, recv_ts, now_ts, rotate_before, req }),
+            (
+                addr_strategy(),
+                prop_oneof![
+                    1 => Just(None),
+                    1 => (any::<u8>(), 0u8..5, prop_oneof![1 => Just(0u64), 1 => Just(u64::MAX), 2 => any::<u64>()]).prop_map(Some)
+                ],
+                any::<u64>(),
+                any::<u64>(),
+                prop_oneof![9 => Just(false), 1 => Just(true)],
+                req_strategy(),
+            ),
             1..=max_reqs,
         ),
     )
+        .prop_map(|(cfg, state, history, initial_rotations, key_seed, id_offset, reqs)| {
+            let reqs = reqs
+                .into_iter()
+                .map(|(addr, near, recv_ts, now_ts, rotate_before, req)| {
+                    let addr = near.and_then(|(i, d, l)| near_subnet(&cfg, i, d, l)).unwrap_or(addr);
+                    ReqItem { addr, recv_ts, now_ts, rotate_before, req }
+                })
+                .collect();
+            (cfg, state, history, initial_rotations, key_seed, id_offset, reqs)
+        })
         .prop_map(|(cfg, state, history, initial_rotations, key_seed, id_offset, reqs)| ServerCase {
             cfg,
             state,
